@@ -149,20 +149,20 @@ Section Static.
     - rewrite (tlookup_tdeclare_other _ _ _ _ Hne) in Hy. apply (Hn y t' Hy).
   Qed.
 
-  Lemma elab_stmt_simple_static env s ts env' : env_num env -> ssimple s = true -> elab_stmt G env s = EOk (ts, env') ->
+  Lemma elab_stmt_simple_static_0 env s ts env' : env_num env -> ssimple0 s = true -> elab_stmt G env s = EOk (ts, env') ->
     (forall x, In x (stexprs ts) -> forall f, In f (tflits x) -> PrimFloat.eqb f f = true) -> simple ts = true /\ env_num env'.
   Proof.
     intros Hn Hs He Hnan. destruct s as [t x init|e| | | | | | | |]; try discriminate.
     - cbn [elab_stmt] in He. destruct init as [e|].
-      + cbn [ssimple] in Hs. apply andb_prop in Hs as [Hnt Hp]. pose proof (num_ty_b_sound _ Hnt) as Hnum. destruct (num_ty_cases _ Hnum) as (c & -> & Hc).
+      + cbn [ssimple0] in Hs. apply andb_prop in Hs as [Hnt Hp]. pose proof (num_ty_b_sound _ Hnt) as Hnum. destruct (num_ty_cases _ Hnum) as (c & -> & Hc).
         cbn [elab_opt ebind] in He. destruct (elab G COn (tdeclare env x (TPrim (PScalar c))) e) as [te| |] eqn:Ee; cbn [ebind] in He; try discriminate.
         destruct (ty_eqb (type_of te) (TPrim (PScalar c))); [|discriminate]. inversion He; subst ts env'; clear He.
         pose proof (env_num_declare env x _ Hn Hnum) as Hn'. split; [|exact Hn'].
         cbn [simple]. apply (elab_tpure_static _ Hn' e te Hp Ee). intros f Hf. apply (Hnan te (or_introl eq_refl) f Hf).
-      + cbn [ssimple] in Hs. pose proof (num_ty_b_sound _ Hs) as Hnum. destruct (num_ty_cases _ Hnum) as (c & -> & Hc).
+      + cbn [ssimple0] in Hs. pose proof (num_ty_b_sound _ Hs) as Hnum. destruct (num_ty_cases _ Hnum) as (c & -> & Hc).
         cbn [elab_opt ebind] in He. inversion He; subst ts env'. split; [reflexivity|apply env_num_declare; assumption].
     - destruct e as [| | | |o l r| | | | | |]; try discriminate. destruct o; try discriminate. destruct l as [| |x| | | | | | | |]; try discriminate.
-      cbn [ssimple] in Hs. cbn [elab_stmt ebind] in He.
+      cbn [ssimple0] in Hs. cbn [elab_stmt ebind] in He.
       destruct (elab G COn env (EAssign AAssign (EVar x) r)) as [e'| |] eqn:Ee; cbn [ebind] in He; try discriminate. inversion He; subst ts env'; clear He.
       cbn [elab kids ebind aop_op] in Ee. destruct (tlookup env x) as [t|] eqn:Etx; cbn [ebind] in Ee; try discriminate.
       destruct (elab G COn env r) as [te| |] eqn:Er; cbn [ebind] in Ee; try discriminate.
@@ -170,6 +170,10 @@ Section Static.
       split; [|exact Hn]. destruct (num_ty_cases _ (Hn x t Etx)) as (c & -> & _). cbn [simple].
       apply (elab_tpure_static _ Hn r te Hs Er). intros f Hf. apply (Hnan te (or_introl eq_refl) f Hf).
   Qed.
+
+  Lemma elab_stmt_simple_static env s ts env' : env_num env -> ssimple s = true -> elab_stmt G env s = EOk (ts, env') ->
+    (forall x, In x (stexprs ts) -> forall f, In f (tflits x) -> PrimFloat.eqb f f = true) -> simple ts = true /\ env_num env'.
+  Proof. intros Hn Hs He Hnan. rewrite desugar_elab in He. exact (elab_stmt_simple_static_0 env (desugar s) ts env' Hn Hs He Hnan). Qed.
 
   Lemma elab_body_simple_static : forall l env e tl te, env_num env -> forallb ssimple l = true -> spure e = true ->
     elab_body G env (l ++ [SRet (Some e)]) = EOk (tl ++ [TRet (Some te)]) -> length tl = length l ->
